@@ -1,4 +1,5 @@
 """C12 - Savefiles (narrow structural claim; DESIGN.md section 2, C12)."""
+import re
 from .. import astlib as A
 from ..facts import AnalysisBroken
 from .. import fdeval as FD
@@ -170,6 +171,31 @@ def run(ctx):
            detail={"rtosc_amessage_consumes_an_element_for": "".join(t for t in AS.TAGS if cons14[t]), "sequences": sum(15 ** n for n in (1, 2, 3)), "mismatches": bad14[:4]},
            key="R12.14:dispatch_printed_messages",
            what="dispatch_printed_messages stores argument values in other array elements than rtosc_amessage reads them from: %s" % bad14[:2])
+
+    # ---- R12.15: nothing survives from one call of the save / load pipeline to the next
+    ctx.rule("R12.15", "NO-CALL-STATE: the functions of the save and load pipeline (get_default_value, get_changed_values, save_to_file, load_from_file, dispatch_printed_messages and the helpers of their units) keep no mutable "
+             "variable of static or thread storage duration: an answer remembered from an earlier call (a cache of the depended port's value) is compared against a state that has changed since")
+    n15 = 0
+    bad15 = []
+    for un15 in ("default-value.cpp", "savefile.cpp", "ports-runtime.cpp"):
+        uu15 = ctx.ast(un15)
+        for q15, fl15 in sorted(uu15.functions.items()):
+            for f15 in fl15:
+                if uu15.body(f15) is None or not (A.loc(f15)[0] or "").endswith(un15):
+                    continue
+                n15 += 1
+                for d15 in A.walk(uu15.body(f15)):
+                    if d15.get("kind") == "VarDecl" and (d15.get("storageClass") == "static" or d15.get("tls")):
+                        t15 = A.qtype(d15) or ""
+                        if re.match(r"^\s*(static\s+)?const\b", t15) or t15.startswith("const ") or " const" in t15.split("*")[-1] or d15.get("constexpr"):
+                            continue
+                        bad15.append((q15, d15))
+    ctx.require(n15 >= 8, "R12.15: only %d functions of the save / load pipeline found" % n15)
+    ctx.ob("R12.15", "save / load pipeline: variables that outlive a call", not bad15, site=A.where(bad15[0][1]) if bad15 else A.where(us.function("save_to_file")),
+           detail={"functions": n15, "mutable_static_or_thread_locals": ["%s: %s %s" % (q_, A.qtype(d_), d_.get("name")) for q_, d_ in bad15][:4]},
+           key="R12.15:%s" % (bad15[0][0] if bad15 else ""),
+           what="%s keeps `%s %s` across calls: what it remembers of an earlier call (the answer of a depended port, a default) is used although the state it was read from may have changed - a second save of the same object after a preset change compares against the old preset's defaults" % (
+               bad15[0][0] if bad15 else "", A.qtype(bad15[0][1]) if bad15 else "", bad15[0][1].get("name") if bad15 else ""))
 
     from . import C13
     C13.per_message_state(ctx, us, "R12.5")
